@@ -80,26 +80,46 @@ theorem unknown_partial_error (reg : Registry) (root : Json) (fuel : Nat) (d : D
 
 /-- inside the partial the scope stack is ONE fresh block holding the merged context: the caller's
     `../`, block parameters and @-variables are not visible; after the call the caller's blocks,
-    template name and indentation are restored. -/
+    template name, indentation and @partial-block binding are restored. -/
 theorem partial_scope_is_fresh (reg : Registry) (root : Json) (fuel : Nat) (d : DecoI) (rc : RC) (out : Out)
     (t : Tmpl) (base : SJ)
     (hno : d.template = none) (hcur : rc.currentTemplate ≠ some d.name) (hnb : d.name ≠ PARTIAL_BLOCK)
     (h1 : assocGet rc.partials d.name = some t)
     (hp : d.params = [])
-    (hev : evaluate2 root (.relative [] []) { rc with pbDepth := rc.pbDepth - 1 } out
-             = .ok base { rc with pbDepth := rc.pbDepth - 1 } out) :
+    (hev : evaluate2 root (.relative [] []) rc out = .ok base rc out) :
     expandPartial reg root (fuel + 1) d rc out =
       (match renderTemplate reg root fuel t
-          { rc with pbDepth := rc.pbDepth - 1,
-                    blocks := [{ baseValue := some (mergeJson base.asJson (d.hash.map (fun (k, v) => (k, v.json)))) }],
+          { rc with blocks := [{ baseValue := some (mergeJson base.asJson (d.hash.map (fun (k, v) => (k, v.json)))) }],
                     indentString := d.indent } out with
        | .ok () rc1 out1 =>
          .ok () { rc1 with blocks := rc.blocks, currentTemplate := rc.currentTemplate,
-                           indentString := rc.indentString } out1
+                           indentString := rc.indentString, pbBinding := rc.pbBinding } out1
        | r => r) := by
   have hb : (d.name == PARTIAL_BLOCK) = false := beq_eq_false_iff_ne.mpr hnb
   simp [expandPartial, hno, RM.bnd_apply, hcur, hb, h1, hp, hev]
   simp only [bind, RM.bnd, RM.modify]
   split <;> simp_all
+
+/-- `{{> @partial-block}}` renders the block body of the enclosing inclusion; a second use finds the
+    same body again because the binding is put back after each inclusion (it was shifted and never
+    restored before the repair recorded in known_findings.json as `fixed: property=C09`) -/
+theorem partial_block_binding_restored (reg : Registry) (root : Json) (fuel : Nat) (d : DecoI)
+    (rc rc' : RC) (out out' : Out) (t : Tmpl) (base : SJ)
+    (hno : d.template = none) (hcur : rc.currentTemplate ≠ some d.name) (hnb : d.name ≠ PARTIAL_BLOCK)
+    (h1 : assocGet rc.partials d.name = some t) (hp : d.params = [])
+    (hev : evaluate2 root (.relative [] []) rc out = .ok base rc out)
+    (hok : expandPartial reg root (fuel + 1) d rc out = .ok () rc' out') :
+    rc'.pbBinding = rc.pbBinding ∧ rc'.blocks = rc.blocks ∧ rc'.currentTemplate = rc.currentTemplate ∧
+    rc'.indentString = rc.indentString := by
+  rw [partial_scope_is_fresh reg root fuel d rc out t base hno hcur hnb h1 hp hev] at hok
+  split at hok
+  · cases hok; exact ⟨rfl, rfl, rfl, rfl⟩
+  · rename_i hne
+    exfalso
+    cases hr : renderTemplate reg root fuel t _ out with
+    | ok u rc1 out1 => exact hne rc1 out1 hr
+    | err e o => rw [hr] at hok; cases hok
+    | panic s => rw [hr] at hok; cases hok
+    | fuel => rw [hr] at hok; cases hok
 
 end Hbs.C09
